@@ -163,7 +163,9 @@ def write_pcapng(v, items):
         io += opt(e, 12, b"Linux")
     if io:
         io += endofopt(e)
-    the_idb = idb(e, io)
+    # the snapshot length a capture tool announces is a property of the container, not of the packets: it varies with the
+    # variant (0 = no limit) and must not show in the export
+    the_idb = idb(e, io, snaplen=(0 if v.be else 262144) if v.opts else (65535 if v.tsresol is None else 131072))
     out += the_idb
     if "h" in v.extras:
         out += isb(e) + nrb(e)
@@ -189,7 +191,7 @@ def write_pcapng(v, items):
 
 def write_pcap(v, items):
     e = ">" if v.be else "<"
-    out = struct.pack(e + "IHHiIII", 0xa1b23c4d if v.nano else 0xa1b2c3d4, 2, 4, 0, 0, 65535, 1)
+    out = struct.pack(e + "IHHiIII", 0xa1b23c4d if v.nano else 0xa1b2c3d4, 2, 4, 0, 0, 262144 if v.nano else 65535, 1)
     d = v.divisor()
     for it in items:
         if it[0] != "pkt":
